@@ -64,6 +64,11 @@ def dedup_flat(k1: int, k2: int, i1: int, i2: int, f1: float, f2: float) -> bool
     pre: 0 <= k1 < 4 and 0 <= k2 < 4
     post: _ == True
     """
+    return _dedup_flat(k1, k2, i1, i2, f1, f2)
+
+
+def _dedup_flat(k1, k2, i1, i2, f1, f2):
+    # NOTE: no contract here: CrossHair assumes the postcondition of a contracted callee instead of executing it
     one = leaf(0, 1, 0.0)
     t1 = tup([leaf(pin(k1, 4), i1, f1), one])
     t2 = tup([leaf(pin(k2, 4), i2, f2), one])
@@ -78,6 +83,10 @@ def dedup_nested(k1: int, k2: int, i1: int, i2: int, f1: float, f2: float, shape
     pre: 0 <= k1 < 4 and 0 <= k2 < 4 and 0 <= shape < 2
     post: _ == True
     """
+    return _dedup_nested(k1, k2, i1, i2, f1, f2, shape)
+
+
+def _dedup_nested(k1, k2, i1, i2, f1, f2, shape):
     none = leaf(3, 0, 0.0)
     one = leaf(0, 1, 0.0)
     a, b = leaf(pin(k1, 4), i1, f1), leaf(pin(k2, 4), i2, f2)
@@ -98,8 +107,8 @@ IVALS = [0, 1, -1, 2, 2 ** 70, -2 ** 70, 255, 1 << 31]
 def dedup_classes(k1, k2, v1, v2, sh):
     a, b = pin(v1, 8), pin(v2, 8)
     if sh == 0:
-        return dedup_flat(k1, pin(k2, 4), IVALS[a], IVALS[b], FVALS[a], FVALS[b])
-    return dedup_nested(k1, pin(k2, 4), IVALS[a], IVALS[b], FVALS[a], FVALS[b], sh - 1)
+        return _dedup_flat(k1, pin(k2, 4), IVALS[a], IVALS[b], FVALS[a], FVALS[b])
+    return _dedup_nested(k1, pin(k2, 4), IVALS[a], IVALS[b], FVALS[a], FVALS[b], sh - 1)
 
 
 def dedup_cls_0_0(k2: int, v1: int, v2: int) -> bool:
@@ -286,5 +295,5 @@ def twin(i1: int) -> bool:
     """
     post: _ == True
     """
-    dedup_flat(0, 1, i1, 0, 0.0, 1.0)
+    _dedup_flat(0, 1, i1, 0, 0.0, 1.0)
     return False
